@@ -3,7 +3,7 @@
 # written by an independent sub-agent (it keeps the pinned baseline at 1060/1060). Each is applied to a
 # scratch copy of /repo's working tree (outside /repo and /verif, removed at the end) and ALL checks are run
 # on it: every check must stay silent. Prints one line per patch and writes evidence/.selftest/benign.json.
-# usage: benign.sh [area]
+# usage: benign.sh [area]     env: SCRIGGOSA_BIN (analyser binary), BENIGN_PROPERTY (default all), BENIGN_OUT
 set -u
 cd "$(dirname "$0")/.."
 . ./env.sh
@@ -16,14 +16,15 @@ rsync -a --exclude .git --exclude 'test/compare/cmd/cmd' "$REPO/" "$SCR/repo/"
 (cd "$SCR/repo" && git init -q && git add -A >/dev/null 2>&1 && git -c user.email=x@x -c user.name=x commit -qm base >/dev/null 2>&1)
 cp known_findings.txt "$SCR/verif/"
 shopt -s nullglob
-out="$VERIF/evidence/.selftest/benign.json"
+out="${BENIGN_OUT:-$VERIF/evidence/.selftest/benign.json}"
+BIN=${SCRIGGOSA_BIN:-$VERIF/bin/scriggosa}
 echo '{"benign":[' > "$out"; first=1; tot=0; silent=0
 for p in benign/${1:-*}/*/patch.diff; do
   name=${p#benign/}; name=${name%/patch.diff}
   if ! (cd "$SCR/repo" && git apply --check "$VERIF/$p" 2>/dev/null); then res="skipped: patch does not apply to the current tree"
   else
     (cd "$SCR/repo" && git apply "$VERIF/$p")
-    o=$("$VERIF/bin/scriggosa" -property all -tier quick -repo "$SCR/repo" -verif "$SCR/verif" 2>&1); rc=$?
+    o=$("$BIN" -property ${BENIGN_PROPERTY:-all} -tier quick -repo "$SCR/repo" -verif "$SCR/verif" 2>&1); rc=$?
     tot=$((tot+1))
     if [ $rc -eq 0 ] && ! echo "$o" | grep -q '^VIOLATION'; then res="silent"; silent=$((silent+1))
     else res="ALARM: $(echo "$o" | grep -a -m3 -E '^  (VIOLATED|UNDECIDED)' | cut -c1-220 | sed 's/\\/\\\\/g; s/"/\\"/g' | tr '\n\t' '; ')"; fi
